@@ -578,12 +578,15 @@ def beginPre (a : Actor) : M :=
     andThen (handleSignal { a with sigVal := false }) fun a => failSpawn a .killed
   else ({ a with phase := .pre }, [.ev (.enter .preStart .none)])
 
-/-- First poll of the start task of an instant spawn: `start()` from its first statement.
-The "cannot start an actor more than once" test (`status != Unstarted` ⇒ `Err(ActorAlreadyStarted)`) is
-not a branch of the model: nothing writes the status of a cell that has not been started (`drain`
-leaves an `Unstarted` cell `Unstarted`, repo fix e926850), and the oracle clause
-`c04.instant-start-refused` rejects an implementation trace that shows `Err(already)`. -/
+/-- First poll of the start task of an instant spawn: `start()` from its first statement, beginning
+with the "cannot start an actor more than once" test (`status != Unstarted` ⇒ `Err(ActorAlreadyStarted)`).
+That branch is dead: nothing writes the status of a cell that has not been started (`drain` leaves an
+`Unstarted` cell `Unstarted`, repo fix e926850) — `Lemmas/LifeCell.lean` proves `phase = cell → status =
+Unstarted` for every reachable state, and the automaton clause `c04.instant-start-refused` (part of
+`C04.reported_once`) rejects a trace with `Err(already)`. -/
 def startInstant (a : Actor) (supOk : Bool) : M :=
+  if a.status ≠ .unstarted then failSpawn a .already
+  else
   let a : Actor := { a with status := .starting }
   if a.isLocal then
     -- thread_local/inner.rs: the link is made synchronously, then the builder is shipped
